@@ -819,12 +819,14 @@ class IntervalEval:
         if base == "fold" and isinstance(a0, AIter) and len(args) == 3:
             # accumulator fixpoint: acc = init join f(acc, elem), widened after a few rounds (the obligations of the closure body are
             # raised on the way, so an unbounded `acc + x` still has to fit its type)
+            # (a known maximal length bounds the number of rounds: no widening then, as for `sum`)
             acc = args[1]
-            for round_ in range(8):
+            bounded = a0.maxlen is not None and a0.maxlen <= 4096
+            for round_ in range(a0.maxlen if bounded else 8):
                 nxt = join(acc, self.apply(args[2], [acc, a0.elem], n))
                 if repr(nxt) == repr(acc):
                     break
-                acc = widen(acc, nxt) if round_ >= 3 else nxt
+                acc = widen(acc, nxt) if (round_ >= 3 and not bounded) else nxt
             return acc
         if base == "sum" and isinstance(a0, AIter) and isinstance(a0.elem, AInt):
             if a0.maxlen is None:
